@@ -254,7 +254,7 @@ def parse_dump(text):
     return d
 
 
-def run_sharded(binary, args_before, cases, workdir, tag, nshards=NCPU, timeout=1200):
+def run_sharded(binary, args_before, cases, workdir, tag, nshards=NCPU, timeout=1200, _depth=0):
     """split cases into shards, run `binary args_before <shardfile>` on each in parallel,
     return {idx(int): [lines]}"""
     os.makedirs(workdir, exist_ok=True)
@@ -278,6 +278,12 @@ def run_sharded(binary, args_before, cases, workdir, tag, nshards=NCPU, timeout=
     for p, fo, outp, lo, hi in procs:
         rc = p.wait()
         fo.close()
+        if rc != 0 and _depth < 6:
+            # the process died (abort, stack overflow, time-out): its buffered output is unreliable.
+            # Locate the culprit(s) by bisection, then run the rest without them.
+            sub = _run_crashy(binary, args_before, cases, lo, hi, workdir, tag, timeout, _depth)
+            res.update(sub)
+            continue
         with open(outp) as f:
             d = parse_dump(f.read())
         for k, v in d.items():
@@ -286,10 +292,45 @@ def run_sharded(binary, args_before, cases, workdir, tag, nshards=NCPU, timeout=
             except ValueError:
                 pass
         if rc != 0:
-            # a crashed shard: cases without output are marked
             for i in range(lo, hi):
                 res.setdefault(i, ["R crashed rc=%d" % rc])
     for i in range(n):
+        res.setdefault(i, ["R missing"])
+    return res
+
+
+def _run_one(binary, args_before, cases, lo, hi, workdir, tag, timeout):
+    path = os.path.join(workdir, "%s.bisect.cases" % tag)
+    write_cases(cases[lo:hi], path, start=lo)
+    p = subprocess.run(["timeout", str(timeout), binary] + args_before + [path], stdout=subprocess.PIPE, stderr=subprocess.DEVNULL, env=ENV)
+    return p.returncode, p.stdout.decode("utf-8", "replace")
+
+
+def _run_crashy(binary, args_before, cases, lo, hi, workdir, tag, timeout, depth):
+    """results for cases[lo:hi] when running them together kills the process"""
+    res = {}
+    todo = [(lo, hi)]
+    culprits = 0
+    while todo:
+        a, b2 = todo.pop()
+        rc, out = _run_one(binary, args_before, cases, a, b2, workdir, tag, timeout)
+        if rc == 0:
+            for k, v in parse_dump(out).items():
+                try:
+                    res[int(k)] = v
+                except ValueError:
+                    pass
+        elif b2 - a == 1:
+            res[a] = ["R crashed rc=%d" % rc]
+            culprits += 1
+        elif culprits > 8:
+            for i in range(a, b2):
+                res[i] = ["R crashed rc=%d (not bisected)" % rc]
+        else:
+            m = (a + b2) // 2
+            todo.append((m, b2))
+            todo.append((a, m))
+    for i in range(lo, hi):
         res.setdefault(i, ["R missing"])
     return res
 
